@@ -1,13 +1,45 @@
 //go:build verif
 
 // Contracts for internal/caching (dgv). Comment-only file.
-// The two name-lookup structures are recursive heap structures built once by the IDL parsers; their
-// well-formedness is not expressible as a flat type invariant, so their Get functions are NOT verified:
-// they are assumed (trusted) to be read-only and total. Callers learn nothing about the returned pointer.
 package caching
 
-//@ spec (*HashMap).Get
-//@   trusted
-
+// The trie is a recursive heap structure built once by the IDL parsers; its well-formedness is not expressible as a
+// flat type invariant, so TrieTree.Get is NOT verified: it is assumed (trusted) to be read-only and total.
 //@ spec (*TrieTree).Get
 //@   trusted
+
+// HashMap: open addressing over N slots of 32 bytes (Hash uint32, Key string, Val pointer) at b.
+//@ typeinv *HashMap as m = m != nil && m.b != nil && m.N >= 1 && m.N <= 1<<24 && window(m.b, int(m.N) * 32)
+
+// DJBHash32 reads the key's bytes through a raw pointer (no extent is known for a string parameter's data): trusted,
+// read-only; Get's contract does not depend on its value.
+//@ spec DJBHash32
+//@   trusted
+
+// Get: probing stops ONLY at an empty slot (miss) or at a slot whose hash AND key equal the wanted ones (hit, its
+// value is returned) — a slot that merely shares the hash does not end the search. Nothing is written.
+// Termination is ASSUMED: the table is never full (NewHashMap allocates loadFactor × the number of keys).
+//@ spec (*HashMap).Get
+//@   props C14 C06 C12
+//@   ensures miss: r0 == nil ==> s.Hash == 0 || (s.Hash == h && s.Key == name)
+//@   ensures hit: r0 != nil ==> s.Hash == h && s.Key == name && same(r0, s.Val)
+//@   loop 1
+//@     invariant slot: p < self.N && samerg(s, self.b) && offset(s) == offset(self.b) + 32 * int(p)
+//@     terminates-assumed the table is never full: NewHashMap sizes it to loadFactor (4) times the number of keys
+
+// Set: the entry is written into a slot that was empty (no existing entry is overwritten), and only that slot and
+// the element count change. Termination ASSUMED as for Get.
+//@ spec (*HashMap).Set
+//@   props C14 C06
+//@   requires sep: !samerg(self, self.b)
+//@   ensures where: samerg(s, old(self.b)) && offset(s) == old(offset(self.b)) + 32 * int(p) && p < old(self.N)
+//@   ensures shash: s.Hash == h
+//@   ensures sval: same(s.Val, val)
+//@   ensures skey: len(s.Key) == len(name) && same(s.Key, name)
+//@   ensures wasempty: old(s.Hash) == 0
+//@   ensures count: self.c == old(self.c) + 1
+//@   ensures others: forall i :: 0 <= i && i < int(self.N) * 32 && (i < 32 * int(p) || i >= 32 * int(p) + 32) ==> byteat(self.b, i) == old(byteat(self.b, i))
+//@   modifies self.c, bytes(self.b, int(self.N) * 32)
+//@   loop 1
+//@     invariant slot: p < self.N && samerg(s, self.b) && offset(s) == offset(self.b) + 32 * int(p)
+//@     terminates-assumed the table is never full: NewHashMap sizes it to loadFactor (4) times the number of keys
